@@ -14,7 +14,13 @@ func Gen(prop, tier string, seed uint64, index int) *Plan {
 	case "C02":
 		g.roundtrip(p, false)
 	case "C09":
-		g.roundtrip(p, true)
+		if g.r.Chance(15, 100) {
+			// the compressing reader's output is held to the same specification
+			g.creader(p)
+			p.CRs[0].Faults = nil
+		} else {
+			g.roundtrip(p, true)
+		}
 	case "C08":
 		g.pipeline(p)
 	case "C14":
@@ -490,7 +496,12 @@ func (g *gen) determinism(p *Plan) {
 			{In: 0, Off: minInt(n, 17), Len: minInt(maxInt(n-17, 0), g.r.Range(0, 200000)), HC: g.r.Bool(), Depth: 1 << uint(8+g.r.Range(1, 9))},
 		}
 		for i := 0; i < nc; i++ {
-			calls = append(calls, base[g.r.Intn(len(base))])
+			c := base[g.r.Intn(len(base))]
+			c.Obj = g.r.Pick(50, 25, 25) // package-level, or one of the client's own objects
+			if c.HC && g.r.Chance(1, 2) {
+				c.Depth = g.r.PickInt(0, 1, 2, 16, 512, 1<<9, 1<<13, 1<<17)
+			}
+			calls = append(calls, c)
 		}
 		// each call appears at least twice overall so there is something to compare
 		calls = append(calls, calls...)
